@@ -206,6 +206,8 @@ def static_cases(prop, rnd, quick):
         # requested modes include ones without owner write/search (every created directory, not only the last, must get it)
         mode = (0o751, 0o555, 0o500, 0o1777)[ci % 4]
         call = dict(op=want, path=path, mode=mode) if want == "mkdir_all" else dict(op=want, path=path)
+        if ci % 2:
+            call["api"] = "c"      # every second spelling through the C ABI (pathrs_inroot_mkdir_all / _remove_all)
         for bname, feat in rootops_static.FEATS:
             cases.append(dict(id="static|%d|%s" % (ci, bname), tree=nodes, feat=feat, trace=True, raw=False, calls=[call], post=True, mkmode=mode,
                               meta=dict(kind="static", tree=c["tree"], call=call, backend=bname, expect=c["expect"], model_post=c["post"])))
@@ -342,7 +344,8 @@ def run(prop, tier_):
         if c["meta"].get("kind") == "static":
             got = lib_outcome(r["out"][0]["results"][0])
             exp = c["meta"]["expect"]
-            if bool(exp.get("ok")) != (got[0] == "ok") or (not exp.get("ok") and got[1] != exp.get("err")):
+            canon = (lambda e: {"InvalidArgument": "EINVAL", "SAFETY": "EXDEV"}.get(e, e)) if c["meta"]["call"].get("api") == "c" else (lambda e: e)
+            if bool(exp.get("ok")) != (got[0] == "ok") or (not exp.get("ok") and canon(got[1]) != canon(exp.get("err"))):
                 stats["model_disagrees"] += 1
                 if stats["model_disagrees"] <= 6:
                     v.notes.append("sequential model vs library: %s [%s] model=%s library=%s" % (c["meta"]["call"], c["meta"]["backend"], exp, got))
